@@ -535,57 +535,76 @@ def _unset_guarded(ctx, cls, a, depth=0):
     return True
 
 
-def _hwm_guarded(a, field):
+def _hwm_guard_exprs(a, field):
+    """[(compare node, the expression compared with len(self.<field>))] of the guards of an append"""
     pm = parent_map(a.fn.node)
-    for test, pol in _guards(pm, a.stmt, a.fn.node):
-        for e, p in _conjuncts(test, pol):
-            if p and isinstance(e, ast.Compare) and len(e.ops) == 1 and isinstance(e.ops[0], ast.Eq):
-                sides = [norm(e.left), norm(e.comparators[0])]
-                lens = [s for s in sides if s == 'len(self.%s)' % field]
-                others = [x for x in (e.left, e.comparators[0]) if norm(x) != 'len(self.%s)' % field]
-                if lens and others and isinstance(others[0], ast.Name):
-                    return True
-    return False
-
-
-def _hwm_cursor(a, field):
-    pm = parent_map(a.fn.node)
+    out = []
     for test, pol in _guards(pm, a.stmt, a.fn.node):
         for e, p in _conjuncts(test, pol):
             if p and isinstance(e, ast.Compare) and len(e.ops) == 1 and isinstance(e.ops[0], ast.Eq):
                 for x, y in ((e.left, e.comparators[0]), (e.comparators[0], e.left)):
-                    if norm(x) == 'len(self.%s)' % field and isinstance(y, ast.Name):
-                        return y.id
-    return None
+                    if norm(x) == 'len(self.%s)' % field:
+                        out.append((e, y))
+    return out
 
 
-def _cursor_consistent(a, cur):
-    """Every yield of the generator is paired with `cur += 1` next to it, and
-    the inner iterator is advanced to `cur` (islice start)."""
+def _hwm_guarded(a, field):
+    return bool(_hwm_guard_exprs(a, field))
+
+
+def _hwm_cursor(a, field):
+    g = _hwm_guard_exprs(a, field)
+    return g[0] if g else None
+
+
+def _cursor_consistent(a, guard):
+    """The expression compared with the high-water mark equals the number of rows this generator has delivered
+    before the current one, and the inner iterator is advanced by exactly that number -- decided by the relational
+    counter analysis (petlsa/counters.py: integer locals as Y + c, Y = rows yielded so far), so it does not matter
+    whether the cursor is kept with `n += 1`, with enumerate() or otherwise."""
+    from ..counters import analyse
     problems = []
     fn = a.fn
     pm = parent_map(fn.node)
-
-    def is_incr(s):
-        return isinstance(s, ast.AugAssign) and isinstance(s.op, ast.Add) and \
-            isinstance(s.target, ast.Name) and s.target.id == cur and \
-            isinstance(s.value, ast.Constant) and s.value.value == 1
+    dom = analyse(fn.node)
+    cmp_node, expr = guard
+    st = dom.at.get(id(cmp_node))
+    c = dom.offset(expr, st) if st is not None else None
+    # rows of the current pass through the loop body that were already yielded when the guard is evaluated
+    k = 0
+    stmt = a.stmt
+    loop = None
+    for p, ch in enclosing(pm, stmt, stop=fn.node):
+        if isinstance(p, (ast.For, ast.While)):
+            loop = p
+            top = ch
+            break
+    if loop is not None:
+        for s2 in loop.body:
+            if s2 is top:
+                break
+            k += sum(1 for x in ast.walk(s2) if isinstance(x, ast.Yield))
+    if c is None:
+        problems.append((Access(a.field, 'read', fn, cmp_node, a.stmt),
+                         '`%s`, which is compared with the high-water mark, is not provably the number of rows delivered so '
+                         'far (some path yields a row without counting it, or counts without yielding): two interleaved '
+                         'iterators then append a row twice or skip one' % norm(expr)))
+    elif c != -k:
+        problems.append((Access(a.field, 'read', fn, cmp_node, a.stmt),
+                         '`%s` is the number of rows delivered so far %+d, not that number: the append is attempted for the '
+                         'wrong row' % (norm(expr), c + k)))
     for n in own_nodes(fn.node):
-        if isinstance(n, ast.Expr) and isinstance(n.value, ast.Yield):
-            if not (is_incr(_prev_sibling(pm, n)) or is_incr(_next_sibling(pm, n))):
-                problems.append((Access(a.field, 'read', fn, n, n),
-                                 'a row is yielded without `%s += 1` next to it: the cursor compared with the '
-                                 'high-water mark no longer equals the number of rows delivered' % cur))
         if isinstance(n, ast.Call) and norm(n.func) in ('islice', 'itertools.islice') and len(n.args) >= 2:
             start = n.args[1]
-            if not (isinstance(start, ast.Name) and start.id == cur):
-                st = n
-                while id(st) in pm and not isinstance(st, ast.stmt):
-                    st = pm[id(st)]
-                problems.append((Access(a.field, 'read', fn, n, st),
-                                 'the inner iterator is advanced by `%s`, not by the cursor `%s` that counts the rows '
-                                 'already delivered: rows appended by another iterator meanwhile are delivered twice'
-                                 % (norm(start), cur)))
+            st2 = dom.at.get(id(n))
+            c2 = dom.offset(start, st2) if st2 is not None else None
+            if c2 != 0:
+                st3 = n
+                while id(st3) in pm and not isinstance(st3, ast.stmt):
+                    st3 = pm[id(st3)]
+                problems.append((Access(a.field, 'read', fn, n, st3),
+                                 'the inner iterator is advanced by `%s`, which is not (provably) the number of rows already '
+                                 'delivered: rows appended by another iterator meanwhile are delivered twice' % norm(start)))
     return problems
 
 
